@@ -208,7 +208,7 @@ def race_jobs(tag, s, tier, work, kind="ledger", focus=None):
 def pxx(pid, tier, work, replay):
     """development aid: full conformance of the pool to VipPool (focus all)"""
     s = C.seed()
-    jobs = pool_jobs("pxx", "all", s, 20, 40, work)
+    jobs = pool_jobs("pxx", "all", s, 20, 40, work) + stack_jobs("pxx", "all", s, tier, work)
     return trace_family(pid, tier, work, [], jobs, [], "dev")
 
 
@@ -235,9 +235,16 @@ def pool_prop(tag, focus, rule, mc, cfg=None, weights=None, extra_jobs=None, qui
     return fn
 
 
+def stack_jobs(tag, focus, s, tier, work):
+    """full stack: real agents (pool.Remote signing, keep-alive loops under the fake clock) against the real pool"""
+    nt, nops = sized(tier, (8, 30), (120, 50))
+    return [Job("%s-stack-%s" % (tag, drv), GP.stack_script(s * 1000 + 41, nt, nops, drv, work), "VipPoolTrace", "VipPoolTrace.cfg", focus)
+            for drv in ("memory", "badger")]
+
+
 def store_ledger_jobs(s, tier, work):
     nt, nops = sized(tier, (20, 40), (300, 60))
-    return race_jobs("c01race", s, tier, work, "ledger", focus="C01race") + [Job("c01-store-%s" % drv, GS.store_script(s * 1000 + 101, nt, nops, drv, work), "VipStoreTrace", "VipStoreTrace.cfg", "ledger")
+    return stack_jobs("c01", "C01", s, tier, work) + race_jobs("c01race", s, tier, work, "ledger", focus="C01race") + [Job("c01-store-%s" % drv, GS.store_script(s * 1000 + 101, nt, nops, drv, work), "VipStoreTrace", "VipStoreTrace.cfg", "ledger")
             for drv in ("memory", "badger")]
 
 
@@ -258,7 +265,8 @@ c02 = pool_prop(
     "incl. non-hosts and peers sharing the client's wallet, reconnects between updates); every balance and the balance "
     "in every update reply must equal the model's floor(elapsed*price/interval) per active peer",
     lambda tier: [("VipStoreMC", "VipStoreMC_bal.cfg")] + ([("VipPoolMC", "VipPoolMC_bill_q.cfg")] if tier == "quick" else [("VipPoolMC", "VipPoolMC_bill.cfg")]),
-    weights=dict(update=50, sleep=20, forged=2, withdraw=1, peer=4, close=1, reopen=1, mode=1, stale=1, addnode=6, reconnect=6))
+    weights=dict(update=50, sleep=20, forged=2, withdraw=1, peer=4, close=1, reopen=1, mode=1, stale=1, addnode=6, reconnect=6),
+    extra_jobs=lambda s, tier, work: stack_jobs("c02", "C02", s, tier, work))
 
 c03 = pool_prop(
     "c03", "C03",
@@ -275,7 +283,8 @@ c04 = pool_prop(
     "at random points of valid sessions; compared: accepted exactly if unaltered",
     lambda tier: [("VipStoreMC", "VipStoreMC_nonce.cfg")] + ([("VipPoolMC", "VipPoolMC_bill_q.cfg")] if tier == "quick" else [("VipPoolMC", "VipPoolMC_bill.cfg")]),
     cfg=dict(walletcase=True),
-    weights=dict(forged=45, update=20, sleep=6, legacy=6, addnode=8, withdraw=6, credit=3))
+    weights=dict(forged=45, update=20, sleep=6, legacy=6, addnode=8, withdraw=6, credit=3),
+    extra_jobs=lambda s, tier, work: stack_jobs("c04", "C04", s, tier, work))
 
 c05p = None
 
@@ -353,6 +362,7 @@ def c11(pid, tier, work, replay):
     pt, pops = sized(tier, (16, 45), (300, 70))
     jobs += pool_jobs("c11p", "C11", s, pt, pops, work, weights=dict(update=55, sleep=25, reconnect=6, forged=2),
                       chunks=1 if tier == "quick" else 4)
+    jobs += stack_jobs("c11", "C11", s, tier, work)
     return trace_family(
         pid, tier, work, [("VipStoreMC", "VipStoreMC_peer_q.cfg" if tier == "quick" else "VipStoreMC_peer.cfg")], jobs,
         ["a node reporting itself as its own peer is a documented don't-care and is not generated"] + POOL_ASSUME,
